@@ -154,7 +154,7 @@ fn check_case(rep: &Report, case: &Case, labels: &[String], local: &mut Local, t
             Ok(s) => s,
             Err(e) => {
                 local.outcome(&format!("{}:fail:{}", mode.name(), e.class()));
-                rep.violation(&format!("encode_fail|{}", e.class()), &format!("{}: {}", mode.name(), e.describe()), case.json(), w);
+                rep.violation_x(mode == Mode::Mt, &format!("encode_fail|{}", e.class()), &format!("{}: {}", mode.name(), e.describe()), case.json(), w);
                 continue;
             }
         };
